@@ -131,6 +131,10 @@ func configsFor(part string, thorough bool) []*xcfg {
 			{Name: "cold-faults", Voters: v3, Fifo: true, MaxTerm: 3, MaxIndex: 4, Timeouts: 2, Proposals: 1, Drops: 1, MaxDepth: pick(7, 9)},
 			{Name: "warm-crash-drop", Voters: v3, Fifo: true, WarmLeader: true, MaxTerm: 4, MaxIndex: 5, Timeouts: 1, Proposals: 1, Crashes: 1, Drops: 2, MaxDepth: pick(6, 8)},
 			{Name: "prevote-checkquorum", Voters: v3, Fifo: true, PreVote: true, CheckQuorum: true, MaxTerm: 4, MaxIndex: 5, Timeouts: 2, Leases: 1, CheckQuorums: 1, Drops: 1, Proposals: 1, MaxDepth: pick(6, 8)},
+			{Name: "prevote-only-partition-dev", Voters: v3, Fifo: true, PreVote: true, MaxDev: 2, MaxTerm: 6, MaxIndex: 9, Timeouts: 1, Partitions: 1, Proposals: 1,
+				Script: []string{"T1", "H1", "P1", "H1"}},
+			{Name: "checkquorum-only-partition-dev", Voters: v3, Fifo: true, CheckQuorum: true, MaxDev: 2, MaxTerm: 6, MaxIndex: 9, Timeouts: 1, Partitions: 1, Leases: 1, Proposals: 1,
+				Script: []string{"T1", "H1", "P1", "H1"}},
 			{Name: "dev-snapshot-lag", Voters: v3, Fifo: true, MaxDev: 2, MaxTerm: 6, MaxIndex: 10, Timeouts: 1, Proposals: 1, Crashes: 1, Snapshots: 1, Drops: 3, Reports: 1,
 				Script: []string{"T1", "H1", "P1", "S1", "P2", "H1"}},
 			{Name: "dev-transfer-cc", Voters: v3, Joiners: []uint64{4}, Fifo: true, LazyApply: true, MaxDev: 2, MaxTerm: 6, MaxIndex: 10, Timeouts: 1, ConfChanges: 1, Transfers: 1, Drops: 2, Crashes: 1,
@@ -150,6 +154,8 @@ func configsFor(part string, thorough bool) []*xcfg {
 				Script: []string{"T1", "H1", "P1", "T2", "H2", "P2", "H2", "R1", "H1", "R4", "H1", "H1"}},
 			{Name: "2v+w-read-partition-dev", Voters: []uint64{1, 2}, Witnesses: []uint64{3}, NonVotings: []uint64{4}, Fifo: true, MaxDev: 2, MaxTerm: 6, MaxIndex: 10, Reads: 1, Partitions: 2, Heartbeats: 1, Timeouts: 1,
 				Script: []string{"T1", "H1", "P1", "R1", "H1", "T2", "H2", "P2", "H2", "R1", "H1", "R4", "H1"}},
+			{Name: "3v-remove-transfer-zombie-dev", Voters: v3, Fifo: true, LazyApply: true, KeepRemovedRunning: true, MaxDev: 2, MaxTerm: 6, MaxIndex: 10, ConfChanges: 1, Transfers: 1, Timeouts: 1, Drops: 1,
+				CCMenu: ccMenu, Script: []string{"T1", "H1", "C1:2", "H1", "L1>2", "H1", "H1"}},
 			{Name: "3v-remove-dev", Voters: v3, Fifo: true, LazyApply: true, MaxDev: pick(2, 3), MaxTerm: 6, MaxIndex: 10, ConfChanges: 1, Timeouts: 3, Drops: 2, Proposals: 1,
 				CCMenu: ccMenu, Script: []string{"T1", "H1", "C1:2", "H1", "H1", "T2", "P1", "H1"}},
 		}
